@@ -1,5 +1,6 @@
 import fam_seq
 import fam_loctext
+import fam_region
 
 
 def lookup(prop):
@@ -7,4 +8,6 @@ def lookup(prop):
         return fam_seq.run
     if prop == "C06":
         return fam_loctext.run
+    if prop in ("C08", "C09"):
+        return fam_region.run
     return None
